@@ -5,6 +5,7 @@ package main
 // conjunct, early exits, state shared where it must be fresh) rather than by place.
 
 import (
+	"fmt"
 	"go/ast"
 	"go/constant"
 	"go/token"
@@ -2548,4 +2549,269 @@ func init() {
 	addRules("C16", func(w *World, r *Report) {
 		subRule(w, r, rC13RetriesPerVertex, "R16.25", "declaring a retry budget declares the task: TaskRetries registers the vertex and stores the count whatever its value (same obligations as C13 R13.9)", 2)
 	})
+}
+
+// ------------------------------------------------------------------ round 13
+
+// rMatcherScansAll (R05.19 / R06.22 / R20.12): the matcher's prefix scan judges a name by the prefix test alone: inside
+// its loop over the option table the only conditions are calls of strings.HasPrefix / CutPrefix on the key. A filter
+// borrowed from the completion code (`if v.Called { continue }`) makes what an abbreviation resolves to depend on
+// what was given before it.
+func rMatcherScansAll(id string) func(w *World, r *Report) {
+	return func(w *World, r *Report) {
+		ru := r.Rule(id, "what an abbreviation matches depends on the declared names alone: in the matcher's scan over the option table the only test is the prefix test on the key", 1)
+		fn := w.Fn(nMatcher)
+		if fn == nil {
+			ru.Undecided("anchor", "-", "matcher not found")
+			return
+		}
+		n := 0
+		for _, h := range loopHeaders(fn) {
+			isScan := false
+			for _, in := range h.Instrs {
+				if nx, ok := in.(*ssa.Next); ok {
+					if rg, ok := nx.Iter.(*ssa.Range); ok {
+						if _, isCO := loadOfFieldNamed(rg.X, "ChildOptions"); isCO {
+							isScan = true
+						}
+					}
+				}
+			}
+			if !isScan {
+				continue
+			}
+			n++
+			bad := ""
+			for b := range naturalLoop(h) {
+				if b == h || len(b.Instrs) == 0 {
+					continue
+				}
+				iff, ok := b.Instrs[len(b.Instrs)-1].(*ssa.If)
+				if !ok {
+					continue
+				}
+				okCond := false
+				for _, f := range condFactsRaw(iff.Cond, true, iff) {
+					v := f.X
+					if ex, isEx := v.(*ssa.Extract); isEx {
+						v = ex.Tuple
+					}
+					if c, isCall := v.(*ssa.Call); isCall {
+						switch calleeName(c) {
+						case "strings.HasPrefix", "strings.CutPrefix":
+							okCond = true
+						}
+					}
+					// key == entry: the exact test written inside the scan
+					if f.Y != nil && f.Op == token.EQL {
+						okCond = true
+					}
+				}
+				if !okCond {
+					bad = w.IPos(iff)
+				}
+			}
+			ru.Check(bad == "", "scan/only-prefix-test", w.IPos(h.Instrs[0]), "every name is judged by the prefix test alone", "the matcher's scan skips names under a further condition (at "+bad+"): whether a prefix is unique, ambiguous or unknown then depends on more than the declared names (on what was called before, say)")
+		}
+		if n == 0 {
+			ru.Present("scan/only-prefix-test", w.Pos(fn.Pos()), "no scan over the option table (names are looked up otherwise)")
+		}
+	}
+}
+
+// rOneTaskPerID (R15.14): TaskMap.Add hands back the very Task it stores: one NewTask call, its result both stored
+// and returned. Two calls give the map and the caller two Tasks - two locks - for one ID.
+func rOneTaskPerID(id string) func(w *World, r *Report) {
+	return func(w *World, r *Report) {
+		ru := r.Rule(id, "one Task per ID: TaskMap.Add builds the Task once and stores the value it returns", 1)
+		fn := w.Fn("(*dag.TaskMap).Add")
+		if fn == nil {
+			ru.Undecided("anchor", "-", "TaskMap.Add not found")
+			return
+		}
+		news := callsTo(fn, "dag.NewTask")
+		if len(news) != 1 {
+			ru.Bad("TaskMap.Add/one-task", w.Pos(fn.Pos()), fmt.Sprintf("%d NewTask calls in TaskMap.Add: the Task kept in the map and the Task handed to the caller are different values (each with its own lock)", len(news)))
+			return
+		}
+		nt := news[0].Value()
+		stored, returned := false, false
+		eachInstr(fn, func(in ssa.Instruction) {
+			switch x := in.(type) {
+			case *ssa.MapUpdate:
+				if x.Value == ssa.Value(nt) {
+					stored = true
+				}
+			case *ssa.Return:
+				for _, r := range x.Results {
+					if r == ssa.Value(nt) {
+						returned = true
+					}
+				}
+			}
+		})
+		ru.Check(stored && returned, "TaskMap.Add/one-task", w.IPos(news[0]), "the Task built is the one stored and returned", "TaskMap.Add does not store and return the same Task value")
+	}
+}
+
+// rSortStateOnce (R16.26): the visit marks of a sort are shared by all its roots: the map (and the result list) that
+// DepthFirstSort hands to visit are created before its loop over the vertices, not inside it. A map re-created per root
+// forgets what earlier roots traversed: vertices are listed once per root that reaches them.
+func rSortStateOnce(id string) func(w *World, r *Report) {
+	return func(w *World, r *Report) {
+		ru := r.Rule(id, "every vertex is sorted once: the visit-status map and the result list of DepthFirstSort are created outside its loop over the vertices", 1)
+		fn := w.Fn("(*dag.Graph).DepthFirstSort")
+		if fn == nil {
+			ru.Undecided("anchor", "-", "DepthFirstSort not found")
+			return
+		}
+		n := 0
+		eachInstr(fn, func(in ssa.Instruction) {
+			mm, ok := in.(*ssa.MakeMap)
+			if !ok {
+				return
+			}
+			n++
+			ru.Check(!blockInCycle(mm.Block()), "sort/state-once", w.IPos(mm), "created once per sort", "a map of visit marks is created inside the loop over the vertices: each root starts with a clean slate and vertices reached from several roots are listed several times")
+		})
+		if n == 0 {
+			ru.Bad("sort/state-once", w.Pos(fn.Pos()), "DepthFirstSort creates no visit-status map")
+		}
+	}
+}
+
+// rDashNotOffered (R17.20): the lonesome dash is offered as itself or not at all: in the completion loop over the
+// option names, from the `name == "-"` edge no candidate built from "--" is reachable before the next name.
+func rDashNotOffered(id string) func(w *World, r *Report) {
+	return func(w *World, r *Report) {
+		ru := r.Rule(id, "`---` is never a candidate: in the completion loop over the option names, behind `name == \"-\"` nothing reaches the `--name` candidates before the next name is taken", 1)
+		m := parserOrFail(w, ru)
+		if m == nil {
+			return
+		}
+		n := 0
+		for _, b := range m.fn.Blocks {
+			if len(b.Instrs) == 0 {
+				continue
+			}
+			iff, ok := b.Instrs[len(b.Instrs)-1].(*ssa.If)
+			if !ok || !m.inCompletionOnly(b) {
+				continue
+			}
+			k := -1
+			for _, f := range condFactsRaw(iff.Cond, true, iff) {
+				if f.Y == nil || (f.Op != token.EQL && f.Op != token.NEQ) {
+					continue
+				}
+				x, y := f.X, f.Y
+				if _, isC := constString(x); isC {
+					x, y = y, x
+				}
+				if c, ok := constString(y); ok && c == "-" {
+					if _, isIter := x.(*ssa.Call); isIter {
+						continue // the typed word compared with "-", not a name
+					}
+					k = 0
+					if f.Op == token.NEQ {
+						k = 1
+					}
+				}
+			}
+			if k < 0 {
+				continue
+			}
+			// the enclosing loop
+			var hdr *ssa.BasicBlock
+			for _, h := range loopHeaders(m.fn) {
+				if naturalLoop(h)[b] && (hdr == nil || naturalLoop(hdr)[h]) {
+					hdr = h
+				}
+			}
+			if hdr == nil {
+				continue
+			}
+			n++
+			seen := m.ig.reachFromE(m.ig.edgeStart(b, k), func(in ssa.Instruction) bool { return in == hdr.Instrs[0] }, nil)
+			bad := ""
+			for i, sn := range seen {
+				if !sn {
+					continue
+				}
+				if bo, ok := m.ig.instrs[i].(*ssa.BinOp); ok && bo.Op == token.ADD {
+					if c, ok := constString(bo.X); ok && c == "--" {
+						bad = w.IPos(bo)
+					}
+				}
+				if c, ok := m.ig.instrs[i].(*ssa.Call); ok && calleeName(c) == "fmt.Sprintf" {
+					if f, ok := constString(c.Call.Args[0]); ok && strings.HasPrefix(f, "--") {
+						bad = w.IPos(c)
+					}
+				}
+			}
+			ru.Check(bad == "", "completion/dash", w.IPos(iff), "the dash never reaches the `--name` candidates", "behind `name == \"-\"` the completion loop goes on to build a `--name` candidate (at "+bad+"): a level that declares `-` offers `---`, which the parser rejects")
+		}
+		if n == 0 {
+			ru.Present("completion/dash", w.Pos(m.fn.Pos()), "the completion loop has no special case for the lonesome dash")
+		}
+	}
+}
+
+// rHelpNodeParent (R11.25 / R18.22): the help command answers for the level it is attached to: the node that
+// HelpCommand's walker creates has the walked node as its Parent (runHelp prints the help of Parent and looks topics
+// up in Parent's commands).
+func rHelpNodeParent(id string) func(w *World, r *Report) {
+	return func(w *World, r *Report) {
+		ru := r.Rule(id, "`<cmd> help` prints <cmd>'s help: the help node created for a level has that level's node as its Parent (and is attached to that node)", 1)
+		n := 0
+		for _, fn := range w.Funcs {
+			if !strings.HasPrefix(short(fn), "(*getoptions.GetOpt).HelpCommand$") || len(fn.Params) == 0 {
+				continue
+			}
+			var walked ssa.Value
+			for _, p := range fn.Params {
+				if isTreePtr(p.Type()) {
+					walked = p
+				}
+			}
+			if walked == nil {
+				continue
+			}
+			eachInstr(fn, func(in ssa.Instruction) {
+				base, f, v, ok := storeField(in)
+				if !ok || f.Name() != "Parent" {
+					return
+				}
+				if _, fresh := rootOfAddr(base).(*ssa.Alloc); !fresh {
+					return
+				}
+				n++
+				ru.Check(sameVal(v, walked), "help-node/parent", w.IPos(in), "Parent = the node the walker was called on", "the help node of a level is given another node as its Parent (the root's, say): below the root `<cmd> help` prints the wrong level's help and `<cmd> help <topic>` does not find <cmd>'s commands")
+			})
+		}
+		if n == 0 {
+			ru.Undecided("help-node/parent", "-", "no help node literal found in HelpCommand's walker")
+		}
+	}
+}
+
+func init() {
+	for prop, id := range map[string]string{"C05": "R05.19", "C06": "R06.22", "C20": "R20.12"} {
+		addRules(prop, rMatcherScansAll(id))
+	}
+	addRules("C15", rOneTaskPerID("R15.14"))
+	addRules("C16", rSortStateOnce("R16.26"))
+	addRules("C17", rDashNotOffered("R17.20"))
+	addRules("C11", rHelpNodeParent("R11.25"))
+	addRules("C18", rHelpNodeParent("R18.22"))
+	addRules("C10", func(w *World, r *Report) {
+		subRule(w, r, rC04Lookahead, "R10.22", "nothing behind `--` selects a command: the value look-ahead refuses the terminator, so no option swallows it and lets the parse run on (same obligations as C04 R04.3)", 2)
+	})
+	addRules("C14", func(w *World, r *Report) {
+		subRule(w, r, rC16InsertOnly, "R14.16", "a task keeps its dependencies when it is added again: the vertex table is insert-only (same obligations as C16 R16.2)", 1)
+	})
+}
+
+func init() {
+	addRules("C02", rRegexChoice("R02.23"))
+	addRules("C03", rRegexChoice("R03.25"))
 }
